@@ -121,12 +121,26 @@ _db("C15", "Corrupted files are detected, never served as data", ["c15:"],
 
 _db("C05", "Concurrent operations are linearizable", ["c05:", "c09:"],
     "Lean 4 protocol proof + directed schedules through scheduling hooks + stress with per-key register check", "under construction", [], [], comps=("c05",))
-_db("C06", "No reader ever observes part of a batch", ["c06:", "c09:"],
-    "Lean 4 protocol proof (sequence publication) + directed schedules parking the writer at every stage", "under construction", [], [], comps=("c06",))
+PROPS["C06"] = {
+    "level": "proof", "title": "No reader ever observes part of a batch",
+    "lean_modules": ["Rain.Props.Proto"], "components": ["c06"], "sig_prefixes": ["c06:", "c09:"],
+    "technique": "Lean 4 invariant proof over the group-commit protocol model (a published sequence number is never inside a batch's range; acknowledged batches wholly visible, in-flight batches wholly invisible, for every interleaving and group size) + directed schedules that park the real writer at every stage of applying a batch while readers get, scan and take snapshots",
+    "level_text": "Machine-checked proof over the protocol model of apply_changes / build_group_commit_batch / apply_batch_to_memtable and the read cuts (one step per critical section, one step per unlocked shared access) for every reachable state; the model is tied to the code on every run by forcing its interleavings on the real database through scheduling hooks (writer parked before the WAL append, after it, after each single memtable insertion, after all of them; batches of 2-200 operations, some larger than the memtable) and comparing the hook-point trace, the published sequence number and the number of inserted entries with the model's state; the all-or-nothing oracle is evaluated on real gets, scans and snapshots.",
+    "design_ref": "5 (C06)",
+    "trusted_base": DB_TB + ["scheduling hooks sit at the boundaries of the unlocked windows; interleavings finer than hook-to-hook segments, data races inside the skip list and weak-memory effects of ArcSwap/atomics are not exhibited"],
+    "assumptions": ["parking_lot mutex gives mutual exclusion; readers take their sequence number under the database mutex (as coded)", "memtable rotation never happens between two insertions of one group (it is done in make_room_for_write before the group is built)"],
+}
 _db("C09", "Every operation terminates; the background worker never dies", ["c09:"],
     "Lean 4 termination/progress proofs + watchdog scenarios", "under construction", [], [], comps=("c09",))
-_db("C17", "One owner at a time", ["c17:"],
-    "Lean 4 lock-protocol proof + racing open/close/destroy on the disk-backed filesystem", "under construction", [], [], comps=("c17",))
+PROPS["C17"] = {
+    "level": "proof", "title": "One owner at a time: a database cannot be opened or destroyed while open",
+    "lean_modules": ["Rain.Props.Proto"], "components": ["c17"], "sig_prefixes": ["c17:"],
+    "technique": "Lean 4 proof over the lock-file protocol model (single owner, open/destroy fail while owned, exactly one winner among racing opens in any order) + racing open/close/destroy threads on the disk-backed TmpFileSystem compared with the model's verdicts",
+    "level_text": "Machine-checked proof over the lock protocol of DB::open / Drop / destroy_database (exclusive advisory lock taken before recovery touches anything, released after background work stopped) for every action sequence and every order in which racing attempts are served; tied to the code on every run by barrier-released threads racing open and destroy_database on a real disk-backed filesystem (OS flock), whose outcomes are compared with the model's run of the same action list; the owner is read and written before and after every failed attempt.",
+    "design_ref": "5 (C17)",
+    "trusted_base": COMMON_TB + ["OS flock semantics as used by fs2 (try_lock_exclusive fails iff another open file description holds the lock, also within one process)"],
+    "assumptions": ["disk-backed filesystem (InMemoryFileSystem's no-op lock is outside the property)", "the model has one step per lock operation; the failing open's earlier side effects (create_dir_all, starting and stopping its own worker thread, truncating the empty LOCK file) are exercised by the harness, not modelled"],
+}
 
 # properties whose check is registered in MANIFEST.json
-CLAIMED = ["C04", "C12", "C13", "C14"]
+CLAIMED = ["C04", "C06", "C12", "C13", "C14", "C17"]
